@@ -26,7 +26,7 @@ from pyvc.api import *
 from pyvc.api import PROTOCOLS
 from pyvc.values import cur, is_none, mk_bool, mk_int
 from contracts.proto_widget import *
-from contracts.C08_listbox import FILL, LBX, WALKER, WIDGET, lb_ok, walker_focus
+from contracts.C08_listbox import FILL, LBX, WALKER, WIDGET, lb_ok, walker_focus, widget_at
 
 from urwid.widget import listbox as _lbmod
 
@@ -214,45 +214,104 @@ def cursor_row_visible(cursor, off, maxrow):
     return both(0 <= off + cursor[1], off + cursor[1] < maxrow)
 
 
-def item_ok(fill, j, maxcol):
-    """Entry j of a fill list carries the rows its widget reports at this width (unfocused)."""
-    w, _p, r = Q.seq_get(fill, j)
-    return r == rows_of(w, maxcol, False)
+def item_ok(fill, j, maxcol, ch=None, d=None, m=None, k=None):
+    """Entry j of a fill list carries the rows its widget reports at this width (unfocused), and its widget is the one the
+    walker has at its position (`ch`: the chain, for the walker and its state version).  With `d`, `m` (and `k`): the entry
+    IS the chain item chain(d, m), 1 <= m (<= k, the items walked), and the entries before it are exactly the chain items
+    before it that have rows -- the rows listed up to and including it are the chain's: cps(j) = R(d, m - 1),
+    cps(j + 1) = R(d, m)."""
+    w, p, r = Q.seq_get(fill, j)
+    if ch is None:
+        return r == rows_of(w, maxcol, False)
+    out = [r == rows_of(w, maxcol, False), eq(w, widget_at(ch.walker, ch.ver, p))]
+    if m is not None:
+        f = Q.seq_cpsum(fill, 2)
+        ch.unfold(d, m - 1)
+        out += [1 <= m, ch.ok(d, m), p == ch.pos(d, m), f(j) == ch.R(d, m - 1), f(j + 1) == ch.R(d, m)]
+        if k is not None:
+            out.append(m <= k)
+    return both(*out)
 
 
-def every_item_ok(fill, maxcol, name):
+def every_item_ok(fill, maxcol, name, ch=None, d=None, m=None, k=None):
     """`for every index j of the fill list: item_ok` as a statement about ONE arbitrary index (universal
-    generalisation, pyvc.values.arbitrary): proved / assumed for that index only, hence for all."""
+    generalisation, pyvc.values.arbitrary): proved / assumed for that index only, hence for all.  `m`: the chain index of
+    THAT entry (a witness: a ghost of the loops, a Skolem function of the index at call sites)."""
     n = Q.seq_len(fill)
     if isinstance(n, int):
-        return both(True, *[item_ok(fill, j, maxcol) for j in range(n)])
+        if n == 0:
+            return True
+        raise Unsupported("fill list of concrete non-zero length")
     q = V.arbitrary(name)
-    return implies(both(0 <= q, q < n), item_ok(fill, q, maxcol))
+    return implies(both(0 <= q, q < n), item_ok(fill, q, maxcol, ch, d, m, k))
 
 
-def last_listed(ch, fill, fpos, kb, kl):
-    """chain(DOWN, kl) is the bottommost item that is listed (the focus when nothing is): whatever the walker has
-    between it and chain(DOWN, kb) has no rows."""
+def _mq_at_head(v, slot, fill, name, rows_name, index):
+    """Ghost of the loops of calculate_visible: the chain index of the ARBITRARY entry q (`every_item_ok`) of the fill list.
+    At the loop head of the arbitrary iteration it is an unknown of the invariant (a fresh constant when the invariant is
+    assumed); when the invariant is re-established after the body it is `index` (the item just walked) if q is the entry
+    just appended, else the old one.  `rows_name`: the local holding the rows of the item just walked when 0-row items
+    are not appended (None: every item is appended)."""
+    st = cur()
+    if isinstance(v.i_, int):
+        return 0  # inv-init: the list is empty (loops 2, 3) / handled by the caller (loop 4)
+    if st.ghost.get("inv_assuming"):
+        st.ghost[slot] = st.fresh_int(slot[3:])
+        return st.ghost[slot]
+    q = V.arbitrary(name)
+    appended = True if rows_name is None else neg(getattr(v, rows_name) == 0)
+    return ite(both(appended, q == Q.seq_len(fill) - 1), index, st.ghost[slot])
+
+
+def _mq_after(end, slot, fill_name, name, found_name, index):
+    """... and when the loop was left: by `break` on an item that was found, that item was appended (it crosses the edge,
+    so it has rows / loop 4 appends every item)."""
+    st = cur()
+    if isinstance(end.i_, int) or slot not in st.ghost:
+        return 0
+    if end.broke_ and not is_none(getattr(end, found_name)):
+        q = V.arbitrary(name)
+        return ite(q == Q.seq_len(getattr(end, fill_name)) - 1, index, st.ghost[slot])
+    return st.ghost[slot]
+
+
+def last_listed(ch, fill, fpos, kb, kl, d=DOWN):
+    """chain(d, kl) is the outermost item that is listed in direction d (the focus when nothing is) -- its position and its
+    widget: whatever the walker has between it and chain(d, kb) has no rows."""
     n = Q.seq_len(fill)
     if isinstance(n, int):
-        bottom_pos = Q.seq_get(fill, n - 1)[1] if n > 0 else fpos
+        end_pos = Q.seq_get(fill, n - 1)[1] if n > 0 else fpos
+        same_widget = eq(Q.seq_get(fill, n - 1)[0], ch.widget(d, kl)) if n > 0 else True
     else:
-        bottom_pos = ite(n > 0, Q.seq_get(fill, n - 1)[1], fpos)
-    return both(0 <= kl, kl <= kb, ch.R(DOWN, kl) == ch.R(DOWN, kb), bottom_pos == ch.pos(DOWN, kl), implies(n == 0, kl == 0))
+        end_pos = ite(n > 0, Q.seq_get(fill, n - 1)[1], fpos)
+        same_widget = implies(n > 0, eq(Q.seq_get(fill, imax(n - 1, 0))[0], ch.widget(d, kl)))
+    return both(0 <= kl, kl <= kb, ch.R(d, kl) == ch.R(d, kb), end_pos == ch.pos(d, kl), implies(n == 0, kl == 0), implies(n > 0, kl >= 1), same_widget)
 
 
-def _kl_at_head(v):
-    """Ghost of loop 3: the chain index of the last item appended to fill_below.  At the loop head of the arbitrary
-    iteration it is an unknown of the invariant (a fresh constant when the invariant is assumed); when the invariant
-    is re-established after the body it is the index just appended, or the old one when a 0-row widget was skipped."""
+def trim_inside_outermost_listed(trim, fill, focus_rows):
+    """The rows cut off at an edge are rows of the outermost LISTED item on that side (of the focus widget when nothing is
+    listed there), and leave a row of it."""
+    n = Q.seq_len(fill)
+    if isinstance(n, int):
+        rows = Q.seq_get(fill, n - 1)[2] if n > 0 else focus_rows
+    else:
+        rows = ite(n > 0, Q.seq_get(fill, imax(n - 1, 0))[2], focus_rows)
+    return both(trim >= 0, implies(trim > 0, trim < rows))
+
+
+def _kl_at_head(v, slot="lb_kl", rows_name="n_rows"):
+    """Ghost of loop 3 (loop 2: slot "lb_kt", rows in `p_rows`): the chain index of the last item appended to the fill
+    list.  At the loop head of the arbitrary iteration it is an unknown of the invariant (a fresh constant when the
+    invariant is assumed); when the invariant is re-established after the body it is the index just appended, or the old
+    one when a 0-row widget was skipped."""
     st = cur()
     if isinstance(v.i_, int):
         return 0  # inv-init: nothing walked yet
     if st.ghost.get("inv_assuming"):
-        st.ghost["lb_kl"] = st.fresh_int("kl")
-        return st.ghost["lb_kl"]
-    # inv-preserve: v.i_ = j + 1 items walked, the last one (n_rows) appended unless it had no rows
-    return ite(v.n_rows != 0, v.i_, st.ghost["lb_kl"])
+        st.ghost[slot] = st.fresh_int(slot[3:])
+        return st.ghost[slot]
+    # inv-preserve: v.i_ = j + 1 items walked, the last one appended unless it had no rows
+    return ite(getattr(v, rows_name) != 0, v.i_, st.ghost[slot])
 
 
 def _kl_final():
@@ -263,6 +322,38 @@ def _kl_final():
     if end.broke_ and not is_none(end.next_pos):
         return end.i_ + 1  # left on the item that crosses the bottom edge: it has rows and was appended
     return st.ghost["lb_kl"]
+
+
+def _mq_after_loop2():
+    end = loop_end(0)
+    return _mq_after(end, "lb_mq_above", "fill_above", "cv.above", "prev", end.i_ + 1)
+
+
+def _mq_above_final():
+    end = loop_end(2)
+    return _mq_after(end, "lb_mq_above4", "fill_above", "cv.above", "prev", _k2() + end.i_ + 1)
+
+
+def _mq_below_final():
+    end = loop_end(1)
+    return _mq_after(end, "lb_mq_below", "fill_below", "cv.below", "next_pos", end.i_ + 1)
+
+
+def _kt_after_loop2():
+    """Chain index of the topmost listed item when loop 2 was left."""
+    end = loop_end(0)
+    st = cur()
+    if isinstance(end.i_, int) or "lb_kt" not in st.ghost:
+        return 0
+    if end.broke_ and not is_none(end.prev):
+        return end.i_ + 1  # left on the item that crosses the top edge: it has rows and was appended
+    return st.ghost["lb_kt"]
+
+
+def _kt_final():
+    """... and at the end: loop 4 appends every item it walks."""
+    m = steps_done(loop_end(2), "prev")
+    return ite(m >= 1, _k2() + m, _kt_after_loop2())
 
 
 def loop_end(ordinal):
@@ -297,7 +388,11 @@ def _cv_loop_above(v):
     yield "lines-left", both(v.fill_lines == e.offset_rows - ch.R(UP, k), v.fill_lines >= 0)
     yield "walked-on-only-while-lines-were-left", implies(k >= 1, ch.R(UP, k - 1) < e.offset_rows)
     yield "offset-and-trim-untouched", both(v.offset_rows == e.offset_rows, v.trim_top == e.trim_top)
-    yield "every-listed-item-has-its-widgets-rows", every_item_ok(v.fill_above, v.maxcol, "cv.above")
+    yield "every-listed-item-has-its-widgets-rows", every_item_ok(v.fill_above, v.maxcol, "cv.above", ch, UP, _mq_at_head(v, "lb_mq_above", v.fill_above, "cv.above", "p_rows", v.i_), k)
+    kt = _kl_at_head(v, "lb_kt", "p_rows")
+    ch.unfold(UP, kt)
+    yield "top-listed-item-above", both(last_listed(ch, v.fill_above, v.focus_pos, k, kt, UP), Q.seq_len(v.fill_above) <= k)
+    yield "trim-top-inside-the-topmost-listed-item", trim_inside_outermost_listed(v.trim_top, v.fill_above, v.focus_rows)
 
 
 def _cv_loop_below(v):
@@ -312,10 +407,11 @@ def _cv_loop_below(v):
     yield "lines-left", both(v.fill_lines == v.maxrow - v.focus_rows - off - ch.R(DOWN, j), implies(j >= 1, v.fill_lines >= 0))
     yield "walked-on-only-while-lines-were-left", implies(j >= 1, v.maxrow - v.focus_rows - off - ch.R(DOWN, j - 1) > 0)
     yield "trim-untouched", v.trim_bottom == imax(v.focus_rows + off - v.maxrow, 0)
-    yield "every-listed-item-has-its-widgets-rows", every_item_ok(v.fill_below, v.maxcol, "cv.below")
+    yield "every-listed-item-has-its-widgets-rows", every_item_ok(v.fill_below, v.maxcol, "cv.below", ch, DOWN, _mq_at_head(v, "lb_mq_below", v.fill_below, "cv.below", "n_rows", v.i_), j)
     kl = _kl_at_head(v)
     ch.unfold(DOWN, kl)
-    yield "last-listed-item-below", last_listed(ch, v.fill_below, v.focus_pos, j, kl)
+    yield "last-listed-item-below", both(last_listed(ch, v.fill_below, v.focus_pos, j, kl), Q.seq_len(v.fill_below) <= j)
+    yield "trim-bottom-inside-the-bottommost-listed-item", trim_inside_outermost_listed(v.trim_bottom, v.fill_below, v.focus_rows)
 
 
 def _cv_loop_refill(v):
@@ -335,15 +431,20 @@ def _cv_loop_refill(v):
     yield "trim-top-inside-the-topmost-item", both(v.trim_top >= 0, implies(v.trim_top > 0, v.trim_top < ch.item_rows(UP, k, v.focus_rows)))
     yield "a-focus-row-stays-visible", implies(v.focus_rows >= 1, both(off < v.maxrow, off + v.focus_rows >= 1))
     yield "cursor-row-stays-visible", cursor_row_visible(v.cursor, off, v.maxrow)
-    yield "every-listed-item-has-its-widgets-rows", every_item_ok(v.fill_above, v.maxcol, "cv.above")
+    mq = _mq_after_loop2() if isinstance(v.i_, int) else _mq_at_head(v, "lb_mq_above4", v.fill_above, "cv.above", None, k)
+    yield "every-listed-item-has-its-widgets-rows", every_item_ok(v.fill_above, v.maxcol, "cv.above", ch, UP, mq, k)
+    kt = ite(v.i_ >= 1, k, _kt_after_loop2())
+    ch.unfold(UP, kt)
+    yield "top-listed-item-above", last_listed(ch, v.fill_above, v.focus_pos, k, kt, UP)
+    yield "trim-top-inside-the-topmost-listed-item", trim_inside_outermost_listed(v.trim_top, v.fill_above, v.focus_rows)
 
 
 CV_RESULT = Tup(Tup(Int, WIDGET, Int, Dim, Opt(Tup(Nat, Nat))), Tup(Int, FILL), Tup(Int, FILL))
 
 
-def cv_clauses(ch, s, a, result, ka, kb, kl, callee=False):
-    """The postcondition of calculate_visible for the witnesses ka, kb (items walked above / below) and kl (the
-    bottommost listed item)."""
+def cv_clauses(ch, s, a, result, ka, kb, kl, callee=False, kt=None):
+    """The postcondition of calculate_visible for the witnesses ka, kb (items walked above / below), kl and kt (the
+    bottommost / topmost listed item)."""
     maxcol, maxrow = a.size
     (off, fw, fpos, frows, cursor), (tt, above), (tb, below) = result
     above, below = [x.seq if isinstance(x, Q.LRef) else x for x in (above, below)]  # the lists' contents now (values)
@@ -371,13 +472,23 @@ def cv_clauses(ch, s, a, result, ka, kb, kl, callee=False):
     yield "cursor-is-what-the-focused-selectable-focus-widget-reports", either(both(wants, V.opt_eq(cursor, reported)), both(neg(wants), V.opt_isnone(cursor)))
     ch.unfold(DOWN, kl)
     yield "last-listed-item-below", last_listed(ch, below, fpos, kb, kl)
+    if kt is not None:
+        ch.unfold(UP, kt)
+        yield "top-listed-item-above", last_listed(ch, above, fpos, ka, kt, UP)
+        yield "trim-top-inside-the-topmost-listed-item", trim_inside_outermost_listed(tt, above, frows)
+        yield "trim-bottom-inside-the-bottommost-listed-item", trim_inside_outermost_listed(tb, below, frows)
     if callee:
-        # per-item clauses: kept as lazy facts, instantiated by the caller at the indices it looks at
-        V.lazy_forall(0, Q.seq_len(above), lambda j: item_ok(above, j, maxcol))
-        V.lazy_forall(0, Q.seq_len(below), lambda j: item_ok(below, j, maxcol))
+        # per-item clauses: kept as lazy facts, instantiated by the caller at the indices it looks at; the chain index of
+        # entry j is a Skolem function of j (one per call)
+        st = cur()
+        ma = z3.Function(st.fresh_name("cv_m_above"), z3.IntSort(), z3.IntSort())
+        mb = z3.Function(st.fresh_name("cv_m_below"), z3.IntSort(), z3.IntSort())
+        st.ghost["cv_item_index"] = (lambda j: mk_int(ma(V._z(j))), lambda j: mk_int(mb(V._z(j))))
+        V.lazy_forall(0, Q.seq_len(above), lambda j: item_ok(above, j, maxcol, ch, UP, mk_int(ma(V._z(j))), ka))
+        V.lazy_forall(0, Q.seq_len(below), lambda j: item_ok(below, j, maxcol, ch, DOWN, mk_int(mb(V._z(j))), kb))
     else:
-        yield "every-item-above-has-its-widgets-rows", every_item_ok(above, maxcol, "cv.above")
-        yield "every-item-below-has-its-widgets-rows", every_item_ok(below, maxcol, "cv.below")
+        yield "every-item-above-is-a-chain-item-with-its-widgets-rows-none-with-rows-skipped", every_item_ok(above, maxcol, "cv.above", ch, UP, _mq_above_final(), ka)
+        yield "every-item-below-is-a-chain-item-with-its-widgets-rows-none-with-rows-skipped", every_item_ok(below, maxcol, "cv.below", ch, DOWN, _mq_below_final(), kb)
 
 
 @contract(LBX + "ListBox.calculate_visible", property="C07", replayable=False)  # C08 uses it as a callee contract only
@@ -408,16 +519,17 @@ class lb_calculate_visible:
         if os.environ.get("LBDBG"):
             e0, e1, e2 = loop_end(0), loop_end(1), loop_end(2)
             print("PATH", cur().path_key(), "L2", e0.broke_, e0.broke_ and is_none(e0.prev), "L3", e1.broke_, e1.broke_ and is_none(e1.next_pos), "L4", e2.broke_, e2.broke_ and is_none(e2.prev))
-        yield from cv_clauses(ch, s, a, result, ka, _kb(), _kl_final())
+        yield from cv_clauses(ch, s, a, result, ka, _kb(), _kl_final(), kt=_kt_final())
         yield "moves-no-focus", walker_focus(s, "exit")[1] == walker_focus(old, "entry")[1]
 
     def ensures_callee(old, s, a, result):
         st = cur()
         ch = Chain(old, a.size[0])
-        ka, kb, kl = st.fresh_int("ka"), st.fresh_int("kb"), st.fresh_int("kl")
+        ka, kb, kl, kt = st.fresh_int("ka"), st.fresh_int("kb"), st.fresh_int("kl"), st.fresh_int("kt")
         st.ghost["cv_witness"] = (ch, ka, kb, kl, result)
+        st.ghost["cv_kt"] = kt
         st.ghost["cv_lists"] = (Q.to_sseq(result[1][1]), Q.to_sseq(result[2][1]))  # the lists as returned (render reverses one in place)
-        yield from cv_clauses(ch, s, a, result, ka, kb, kl, callee=True)
+        yield from cv_clauses(ch, s, a, result, ka, kb, kl, callee=True, kt=kt)
 
 
 # ------------------------------------------------------------------------------------------------ _set_focus_valign_complete
